@@ -617,6 +617,13 @@ pub fn build_c07(quick: bool) -> Vec<Scenario> {
             }
         }
     }
+    // the last sender goes away in the instant in which the timed receive of one receiver expires; a second receiver is
+    // blocked behind it (mpmc hands out one disconnect permit that the receivers pass on)
+    for w in [1usize, 2] {
+        v.push(mk_deliver::<Mpmc>(w, &[('t', 0)], &[('C', "TR"), ('C', "R")], 0, false, p));
+        v.push(mk_deliver::<Mpmc>(w, &[('c', 0)], &[('T', "TR"), ('C', "R")], 0, false, p));
+    }
+    v.push(mk_deliver::<Mpmc>(1, &[('t', 0)], &[('T', "TR"), ('T', "R")], 0, false, p));
     // a sender that still sends, then the last drop
     v.push(mk_deliver::<Mpsc>(1, &[('C', 1), ('T', 0)], &[('C', "RR")], 0, false, p));
     v.push(mk_deliver::<Spsc>(2, &[('C', 1)], &[('C', "RR")], 0, false, p));
